@@ -350,9 +350,89 @@ def task_proton_registration(pr, repo):
     C17.task_add_proton(pr, repo)
 
 
+def task_pipeline(pr, repo):
+    """CP: MolecularContainer.calculate_pka computes every conformation once, then averages once, and reports the averaged groups as
+    average_of_conformations built them (AV): nothing recomputes or rewrites them between the averaging and the report."""
+    ex = Executor(repo)
+    fi = repo.func(MC + '.calculate_pka')
+    pr.under_contract(fi)
+    FIELDS = ('pka_value', 'model_pka', 'energy_volume', 'energy_local', 'buried', 'num_volume', 'num_local')
+
+    def snapshot(groups):
+        snap = []
+        for g in groups:
+            snap.append(([g.attrs.get(f) for f in FIELDS],
+                         {t: [(d, d.attrs.get('value')) for d in g.attrs['determinants'][t]] for t in ('sidechain', 'backbone', 'coulomb')}))
+        return snap
+
+    def same(ctx, a, b):
+        conj = []
+        for (fa, da), (fb, db) in zip(a, b):
+            for x, y in zip(fa, fb):
+                if x is None or y is None:
+                    conj.append(x is y)
+                else:
+                    conj.append(x == y)
+            for t in da:
+                if len(da[t]) != len(db[t]) or any(p[0] is not q[0] for p, q in zip(da[t], db[t])):
+                    return False
+                conj += [p[1] == q[1] for p, q in zip(da[t], db[t])]
+        return And(*conj)
+
+    def thunk(ex, ctx):
+        log = []
+        state = {}
+        ex.contracts[CC + '.calculate_pka'] = lambda ex, ctx_, fi_, a, k, so: log.append(('conf', so.name)) or None
+        ex.contracts[MC + '.find_non_covalently_coupled_groups'] = lambda ex, ctx_, fi_, a, k, so: log.append(('coupling',)) or None
+
+        def avg(ex, ctx_, fi_, a, k, so):
+            log.append(('average',))
+            partner = C02.mkgroup(repo, 'partner', (0, 0, 0), label='LYS  99 A')
+            gs = [mk_conf_group(repo, 'AVR', gi, partner) for gi in range(2)]
+            # the averaged clone sits on the atom of the first conformation that has the group: bridged there or not
+            gs[0].attrs['atom'].attrs['cysteine_bridge'] = B('bridged_in_first')
+            gs[0].attrs['residue_type'] = 'CYS'
+            avr = record('avr', repo.cls(CC), groups=gs, name='average')
+            so.attrs['conformations']['AVR'] = avr
+            state['avr'], state['groups'], state['built'] = avr, gs, snapshot(gs)
+            return None
+        ex.contracts[MC + '.average_of_conformations'] = avg
+
+        def show(ex, ctx_, fi_, a, k, so=None):
+            log.append(('print', a[1] if len(a) > 1 else k.get('conformation')))
+            if 'groups' in state:
+                state['printed'] = snapshot(state['groups'])
+            return None
+        ex.contracts['propka.output.print_result'] = show
+        ex.contracts['propka.molecular_container.print_result'] = show
+        CCls = repo.cls(CC)
+        confs = {n: record('conf' + n, CCls) for n in ('1A', '1B')}
+        mol = record('mol', repo.cls(MC), conformations=dict(confs), conformation_names=['1A', '1B'],
+                     version=record('version', None, parameters=record('P', None)), options=record('options', None))
+        ex.call_function(fi, [], self_obj=mol)
+        kinds = [e[0] for e in log]
+        ctx.oblige('CP: calculate_pka computes each conformation once, then (after the coupling search) averages once, then reports AVR',
+                   sorted(e[1] for e in log if e[0] == 'conf') == ['conf1A', 'conf1B'] and kinds.count('average') == 1
+                   and kinds.index('average') > max(i for i, e in enumerate(kinds) if e == 'conf')
+                   and ('coupling' not in kinds or kinds.index('coupling') < kinds.index('average'))
+                   and kinds.count('print') == 1 and kinds.index('print') > kinds.index('average')
+                   and [e for e in log if e[0] == 'print'][0][1] == 'AVR')
+        if 'avr' not in state:
+            return
+        ctx.oblige('CP: the reported conformation AVR is the container built by average_of_conformations, with the same groups',
+                   mol.attrs['conformations'].get('AVR') is state['avr'] and state['avr'].attrs['groups'] == state['groups']
+                   and all(x is y for x, y in zip(state['avr'].attrs['groups'], state['groups'])))
+        now = snapshot(state['groups'])
+        ctx.oblige('CP: pKa, desolvation terms and determinants of the averaged groups are, when reported and on return, exactly what '
+                   'average_of_conformations built (the mean, AV) - nothing recomputes them afterwards (a group whose first '
+                   'conformation is disulfide-bridged included)',
+                   And(same(ctx, state['built'], state.get('printed', state['built'])), same(ctx, state['built'], now)))
+    pr.explore(ex, thunk, MC + '.calculate_pka')
+
+
 def run(pr, repo):
     pr.parallel([(task_average, (3,)), (task_average, (2,)), (task_average_twins, ()), (task_average_partner_twins, ()), (task_topup, ()), (task_topup_conformations, ()), (task_sorter, ()),
-                 (C14.task_make_copy, ()), (reader.task_nterm, ()), (task_proton_registration, ())])   # every alternate location of a chain start is tagged N+
+                 (C14.task_make_copy, ()), (reader.task_nterm, ()), (task_proton_registration, ()), (task_pipeline, ())])   # every alternate location of a chain start is tagged N+
     pr.assumptions += ['AV: two group identities over 2 and 3 conformations, one determinant per type and conformation '
                        '(values symbolic); more groups behave independently (find_group matches by atom label and type)',
                        'residue identity = atom label (name, number, chain) as in the code: insertion codes are not part of it '
